@@ -237,6 +237,15 @@ def resolver_entry_flags(ctx, rid):
             ok = fld == "false" and show(args[i_par]) in ("[]",) and show(args[i_name]) == "v1::None" and args[i_id][0] == "param"
             ctx.expect(ok, rid, "entry/" + cshort(b["path"]), site(n), "plain entry: is_field=false, no parent params, no name",
                        "entry point calls the resolver as " + show(t))
+    # every public function of the generator that hands out a resolved path is such an entry point itself (it does not go through ANOTHER
+    # entry point, whose flags it would inherit)
+    direct = {b["path"] for b, _n, _t in callers}
+    for c, b in ctx.P.all_bodies(GEN):
+        if b.get("pub") and b.get("dk") in ("Fn", "AssocFn") and "typegen::TypeGenerator" in b["path"] and "type_path::TypePath," in b.get("output", "") \
+                and b.get("output", "").startswith("std::result::Result<") and any(t == "u32" for t in b.get("inputs", [])) and b["path"] != fn["path"]:
+            ctx.expect(b["path"] in direct, rid, "entry/direct/" + cshort(b["path"]), b["sp"], "public resolver entry calls the resolver itself with its own flags",
+                       "`%s` hands out resolved type paths but does not call the resolver itself: it goes through another entry point and inherits that entry's is_field / parameter flags"
+                       % cshort(b["path"]))
     # a nested resolution must not go through an entry point: the entry points start over with an empty parent-parameter list
     entry_paths = {b["path"] for b, _n, _t in callers}
     for n in walk(fn["body"]):
